@@ -1,6 +1,7 @@
 #!/bin/bash
 # tools/reseed.sh <seed-name> <property-id>... : apply a kept seeded change to /repo, run the given checks, undo it
 name=$1; shift
+rm -rf /tmp/evidence.bak.$$ && cp -r /verif/evidence /tmp/evidence.bak.$$   # evidence committed in /verif must come from clean-tree runs
 cd /repo && git apply /verif/seeded/$name/patch.diff || { echo "PATCH DOES NOT APPLY"; exit 2; }
 mkdir -p /verif/work/reseed
 for p in "$@"; do
@@ -8,3 +9,4 @@ for p in "$@"; do
   echo "$name check $p: exit $rc, $(grep -c '^VIOLATION' work/reseed/$name-$p.log) VIOLATION lines"; grep "^VIOLATION" work/reseed/$name-$p.log | head -2
 done
 cd /repo && git checkout -- . && git status --short | head -3
+cp /tmp/evidence.bak.$$/*.json /verif/evidence/ && rm -rf /tmp/evidence.bak.$$
